@@ -333,3 +333,5 @@ def run(ctx: Ctx):
                 "the I/O loop that runs _reconnect_peers iterates snapshots of the tables its "
                 "own body resizes (a RuntimeError there ends the thread and with it every redial)",
                 floor=6)
+    from .common_node import socket_close_confined
+    socket_close_confined(ctx, "C12-R9")
